@@ -65,6 +65,14 @@ def create(p):
             full = gen.dense_from_cores(gen.rand_cores(N, R, dt, g, M))
             full = full + 1e-3 * gen.randn(list(full.shape), dt, g)
             x = TT(full, [(m, n) for m, n in zip(M, N)], eps=p['eps'])
+    elif kind == 'svd_npshape':
+        # explicit shape argument computed with numpy: the object's shape/N lists then hold numpy integers
+        if M is None:
+            full = gen.dense_from_cores(gen.rand_cores(N, R, dt, g))
+            x = TT(full.reshape(-1), shape=list(np.array(N)), eps=p['eps'])
+        else:
+            full = gen.dense_from_cores(gen.rand_cores(N, R, dt, g, M))
+            x = TT(full, [(m, n) for m, n in zip(np.array(M), np.array(N))], eps=p['eps'])
     elif kind == 'sliced':
         # non-contiguous core views
         big = TT(gen.rand_cores([n + 2 for n in N], R, dt, g))
@@ -91,7 +99,7 @@ def gen_create(rng):
     d = rng.choice([1, 1, 2, 2, 3, 3, 4, 5, 6])
     N = [rng.randint(1, 4) for _ in range(d)]
     R = [1] + [rng.randint(1, 3) for _ in range(d - 1)] + [1]
-    kind = rng.choice(['cores', 'cores', 'svd', 'svd', 'sliced', 'conj', 'transposed', 'watched', 'rounded'])
+    kind = rng.choice(['cores', 'cores', 'svd', 'svd', 'svd_npshape', 'sliced', 'conj', 'transposed', 'watched', 'rounded'])
     dt = rng.choice(['f64', 'f64', 'f32', 'c128', 'c64'])
     ttm = rng.random() < 0.4 and kind not in ('sliced',)
     if kind == 'transposed':
@@ -133,6 +141,7 @@ class Machine:
         self.fs = seams.SimFS()
         self.fs.write_through = True
         self.loaded = {}     # sid -> (object returned by load, snapshot at load time)
+        self.copies = {}     # sid -> (detach/cpu/to result, its source, snapshot): metadata must stay independent
         self.objs = {}       # sid -> TT
         self.snaps = {}      # sid -> snapshot (kept current for originals)
         self.clones = {}     # sid -> (clone, snapshot at clone time)
@@ -180,6 +189,16 @@ class Machine:
                 self.report('LOAD-INDEPENDENT', op, r[0], 'object loaded at step %s changed afterwards: %s' % (sid, r[1]))
                 del self.loaded[sid]
 
+    def check_copies(self, op):
+        # detach()/cpu()/to() may share tensor storage with their source, but not the N/M/R lists: after set_core or
+        # reduce_dims on one object the other must still describe its own cores
+        from sim.history import check_wf as _wf
+        for sid, (y, src, snap) in list(self.copies.items()):
+            r = _wf(y)
+            if r is not None:
+                self.report('COPY-INDEPENDENT', op, r[0], 'copy made at step %s no longer describes its own cores after its source was modified in place: %s' % (sid, r[1]))
+                del self.copies[sid]
+
     def check_clones(self, op):
         for sid, (c, snap) in list(self.clones.items()):
             r = check_unchanged(c, snap)
@@ -207,6 +226,8 @@ class Machine:
         getattr(self, 'op_' + op)(st, p, x)
         self.check_clones(op)
         self.check_loaded(op)
+        if op == 'mutate':
+            self.check_copies(op)
 
     def op_create(self, st, p, x):
         try:
@@ -441,6 +462,10 @@ class Machine:
                 self.report('CLONE-INDEPENDENT', o, 'storage', 'clone shares %d storage(s) with the original' % len(shared))
             else:
                 self.clones[st['sid']] = (y, take_snap(y))
+        if o in ('detach', 'cpu', 'to'):
+            self.copies[st['sid']] = (y, x, take_snap(y))
+            if len(self.copies) > 6:
+                self.copies.pop(next(iter(self.copies)))
         if p.get('keep'):
             self.objs[st['sid']] = y
             self.snaps[st['sid']] = take_snap(y)
@@ -461,7 +486,12 @@ class Machine:
             if o == 'set_core':
                 k = p['k'] % len(x.cores)
                 c = x.cores[k]
-                x.set_core(k, gen.randn(list(c.shape), gen.DT_NAME[c.dtype], g))
+                sh = list(c.shape)
+                if p.get('resize'):
+                    # a core with another mode size: N/M/shape of *this* object change, copies must not notice
+                    for ax in range(1, len(sh) - 1):
+                        sh[ax] = sh[ax] % 4 + 1
+                x.set_core(k, gen.randn(sh, gen.DT_NAME[c.dtype], g))
             elif o == 'reduce_dims':
                 x.reduce_dims()
             elif o == 'mul_':
@@ -527,7 +557,8 @@ def gen_step(rng, M, sid, opts):
                 dt = rng.choice(['f64', 'f32', 'c128', None])
         st['p'] = {'o': o, 'dt': dt, 'keep': rng.random() < 0.3}
         return st
-    st['p'] = {'o': rng.choice(['set_core', 'reduce_dims', 'mul_', 'mul_', 'zero_']), 'k': rng.randint(0, 5), 'vseed': rng.getrandbits(31)}
+    st['p'] = {'o': rng.choice(['set_core', 'set_core', 'reduce_dims', 'mul_', 'mul_', 'zero_']), 'k': rng.randint(0, 5), 'vseed': rng.getrandbits(31),
+               'resize': rng.random() < 0.5}
     return st
 
 
